@@ -123,7 +123,7 @@ def check(ctx, run):
     run.assume("IEEE-754 binary64 arithmetic for double (Python floats fold with the same semantics); isnan/isinf/fabs have their C meaning")
     run.not_decided.append("value semantics of StrCmp/StrNCmp/StrStr/MemCmp/ToLower/equalsNoCase/contains over all byte strings (loops over unbounded data; C13 decides their bounds and NUL-termination, not their textbook meaning)")
     run.not_decided.append("macro expansions with operand types other than those instantiated in the witness unit (templates over StringFrom / operator!= for user types)")
-    run.rule("R1", "assert family: countCheck exactly once on every path and before any failure; fail <=> oracle over the function's condition atoms; comparisons are on the parameters themselves through value-preserving conversions; string/memory compare only reached with both operands non-null; (expected, actual) reach the failure in that order", floor=60, exhaustive=True)
+    run.rule("R1", "assert family: every assert entry point folded on operand cases (NULL / equal / different / prefix / case / boundary and 2^32-alias values per operand type) against its predicate: countCheck exactly once and first, a failure recorded once iff the predicate is false, (expected, actual) reach the failure object in that order", floor=35, exhaustive=True)
     run.rule("R2", "doubles_equal folded over the floating-point class partition {NaN, -Inf, +Inf, finite lattice} x thresholds {NaN, 0, subnormal, small, large, Inf} equals: NaN => false; same infinity => true; opposite infinities => false; finite => |d1-d2| <= t", floor=300, exhaustive=True)
     run.rule("R3", "C entry points: each CHECK_*_C_LOCATION forwards to the assert of its type with value-preserving widening only, operands in (expected, actual) order, and the longjmp terminator", floor=18)
 
@@ -134,58 +134,72 @@ def check(ctx, run):
     from .shared import char_classifiers
     char_classifiers(prog, run, "R4", which=("isUpper", "ToLower"))
     # ---------------- R1 ----------------------------------------------------
-    def failwith_stop(f, n):
-        return n["k"] in CALL_KINDS and (prog.callee_name(f, n) or "") == shell + "::failWith"
+    # every assert entry point folded on operand cases against its predicate; the failure path never returns (C01.R3)
+    from cpv.ceval import Evaluator, Unknown
 
-    def eq_atom(v, a="actual", e="expected"):
-        for k in ("(%s == %s)" % (a, e), "(%s == %s)" % (e, a)):
-            if k in v:
-                return v[k]
-        return None
+    class Halt(Exception):
+        pass
 
-    def str_oracle(cmpkey_pred, cmp_true_means_fail):
-        def o(v):
-            e, a = v.get("expected"), v.get("actual")
-            if e is False and a is False:
-                return False
-            if e is False or a is False:
-                return True
-            ck = [k for k in v if cmpkey_pred(k)]
-            if len(ck) != 1:
-                return None
-            return v[ck[0]] == cmp_true_means_fail
-        return o
+    def txt(v):
+        return v[1] if isinstance(v, tuple) and v[0] == "str" else None
 
-    ORACLES = {
-        "assertTrue": lambda v: (not v["condition"]) if "condition" in v else None,
-        "fail": lambda v: True,
-        "assertCstrEqual": str_oracle(lambda k: k.startswith("SimpleString::StrCmp(expected, actual)"), True),
-        "assertCstrNEqual": str_oracle(lambda k: k.startswith("SimpleString::StrNCmp(expected, actual, length)"), True),
-        "assertCstrNoCaseEqual": str_oracle(lambda k: k.startswith("SimpleString(expected).equalsNoCase(") and "actual" in k, False),
-        "assertCstrContains": str_oracle(lambda k: k.startswith("SimpleString(actual).contains(") and "expected" in k, False),
-        "assertCstrNoCaseContains": str_oracle(lambda k: k.startswith("SimpleString(actual).containsNoCase(") and "expected" in k, False),
-        "assertLongsEqual": lambda v: None if eq_atom(v) is None else (not eq_atom(v)),
-        "assertUnsignedLongsEqual": lambda v: None if eq_atom(v) is None else (not eq_atom(v)),
-        "assertLongLongsEqual": lambda v: None if eq_atom(v) is None else (not eq_atom(v)),
-        "assertUnsignedLongLongsEqual": lambda v: None if eq_atom(v) is None else (not eq_atom(v)),
-        "assertSignedBytesEqual": lambda v: None if eq_atom(v) is None else (not eq_atom(v)),
-        "assertPointersEqual": lambda v: None if eq_atom(v) is None else (not eq_atom(v)),
-        "assertFunctionPointersEqual": lambda v: None if eq_atom(v) is None else (not eq_atom(v)),
-        "assertDoublesEqual": lambda v: (not v["doubles_equal(expected, actual, threshold)"]) if "doubles_equal(expected, actual, threshold)" in v else None,
-        "assertBitsEqual": lambda v: (lambda ks: None if len(ks) != 1 else (not v[ks[0]]))([k for k in v if k in ("((actual & mask) == (expected & mask))", "((expected & mask) == (actual & mask))")]),
-        "assertEquals": lambda v: v.get("failed"),
-        "assertCompare": lambda v: (not v["comparison"]) if "comparison" in v else None,
+    def cmp3(a_, b_):
+        return (a_ > b_) - (a_ < b_)
+
+    def fold_assert(f, vals, answers=None):
+        """vals: leading argument values by position. Returns (log, failure constructor arguments)"""
+        log = []
+        env = {}
+        for i_, q in enumerate(f.params):
+            env[q["name"]] = vals[i_] if i_ < len(vals) else 7000 + i_
+
+        def failwith(*a_):
+            log.append("fail")
+            raise Halt()
+        hooks = string_hooks({
+            "TestResult::countCheck": lambda *a_: (log.append("check"), 0)[1], shell + "::failWith": failwith, shell + "::getTestResult": lambda *a_: 6000,
+            "SimpleString::StrCmp": lambda a_, b_: None if txt(a_) is None or txt(b_) is None else cmp3(txt(a_), txt(b_)),
+            "SimpleString::StrNCmp": lambda a_, b_, n_: None if txt(a_) is None or txt(b_) is None else cmp3(txt(a_)[:n_], txt(b_)[:n_]),
+            "SimpleString::MemCmp": lambda a_, b_, n_: None if txt(a_) is None or txt(b_) is None else cmp3(txt(a_)[:n_], txt(b_)[:n_]),
+            "doubles_equal": lambda *a_: (log.append(("doubles_equal", a_)), (answers or {}).get("doubles_equal", 1))[1]})
+        ev = Evaluator(prog, f, env=env, calls=hooks)
+        ev.pass_object = True
+        try:
+            ev.run_blocks(f.entry, max_steps=600)
+        except Halt:
+            pass
+        ctor = [t[1] for t in ev.trace if t[0].startswith("construct ") and t[0].endswith("Failure")]
+        return log, ctor
+
+    def S(t):
+        return ("str", t) if t is not None else 0
+    STRS = [None, "abc", "abd", "ABC", "ab", "", "xabcx"]
+
+    def int_cases(f):
+        rng = type_range(prog, f.params[0]["ct"]) or (0, 1000)
+        lo, hi = rng
+        vs = sorted({lo, hi, 0 if lo <= 0 else lo, 5 if lo <= 5 <= hi else hi, 6 if lo <= 6 <= hi else lo} | ({1 << 32, (1 << 32) + 5} if hi >= (1 << 33) else set()) | ({-1} if lo < 0 else set()))
+        for e_ in vs:
+            for a_ in vs:
+                yield (e_, a_), e_ != a_, "(%d, %d)" % (e_, a_)
+    TABLE = {
+        "assertTrue": lambda f: (((c,), not c, "(%d)" % c) for c in (0, 1)),
+        "assertEquals": lambda f: (((c, S("e"), S("a")), bool(c), "(failed=%d)" % c) for c in (0, 1)),
+        "assertCompare": lambda f: (((c,), not c, "(%d)" % c) for c in (0, 1)),
+        "fail": lambda f: iter([((S("text"),), True, "()")]),
+        "assertCstrEqual": lambda f: (((S(e_), S(a_)), (e_ is None) != (a_ is None) or (e_ is not None and e_ != a_), "(%r, %r)" % (e_, a_)) for e_ in STRS for a_ in STRS),
+        "assertCstrNEqual": lambda f: (((S(e_), S(a_), n_), (e_ is None) != (a_ is None) or (e_ is not None and e_[:n_] != a_[:n_]), "(%r, %r, %d)" % (e_, a_, n_)) for e_ in STRS for a_ in STRS for n_ in (0, 2, 3, 6)),
+        "assertCstrNoCaseEqual": lambda f: (((S(e_), S(a_)), (e_ is None) != (a_ is None) or (e_ is not None and e_.lower() != a_.lower()), "(%r, %r)" % (e_, a_)) for e_ in STRS for a_ in STRS),
+        "assertCstrContains": lambda f: (((S(e_), S(a_)), (e_ is None) != (a_ is None) or (e_ is not None and e_ not in a_), "(%r, %r)" % (e_, a_)) for e_ in STRS for a_ in STRS),
+        "assertCstrNoCaseContains": lambda f: (((S(e_), S(a_)), (e_ is None) != (a_ is None) or (e_ is not None and e_.lower() not in a_.lower()), "(%r, %r)" % (e_, a_)) for e_ in STRS for a_ in STRS),
+        "assertBinaryEqual": lambda f: (((S(e_), S(a_), n_), n_ != 0 and ((e_ is None) != (a_ is None) or (e_ is not None and e_[:n_] != a_[:n_])), "(%r, %r, %d)" % (e_, a_, n_)) for e_ in (None, "abc", "abd") for a_ in (None, "abc", "abd") for n_ in (0, 2, 3)),
+        "assertBitsEqual": lambda f: (((e_, a_, m_, 1), (e_ & m_) != (a_ & m_), "(%#x, %#x, mask %#x)" % (e_, a_, m_)) for e_ in (0xF0, 0x0F, (1 << 63) | 1) for a_ in (0xF0, 0xFF, 1) for m_ in (0, 0xF0, 0xFF, (1 << 64) - 1)),
+        "assertLongsEqual": int_cases, "assertUnsignedLongsEqual": int_cases, "assertLongLongsEqual": int_cases, "assertUnsignedLongLongsEqual": int_cases, "assertSignedBytesEqual": int_cases,
+        "assertPointersEqual": lambda f: (((e_, a_), e_ != a_, "(%d, %d)" % (e_, a_)) for e_ in (0, 4096, 1 << 40) for a_ in (0, 4096, (1 << 40) + (1 << 32))),
+        "assertFunctionPointersEqual": lambda f: (((e_, a_), e_ != a_, "(%d, %d)" % (e_, a_)) for e_ in (0, 4096, 1 << 40) for a_ in (0, 4096, (1 << 40) + (1 << 32))),
     }
-
-    def bin_oracle(v):
-        ln = v.get("length")           # atom `length` true <=> length != 0
-        if ln is False:
-            return False
-        return str_oracle(lambda k: k.startswith("SimpleString::MemCmp(expected, actual, length)"), True)(v)
-    ORACLES["assertBinaryEqual"] = bin_oracle
-
     found = 0
-    for name, oracle in sorted(ORACLES.items()):
+    for name in sorted(TABLE) + ["assertDoublesEqual"]:
         fs = prog.fns("%s::%s" % (shell, name))
         if len(fs) != 1:
             run.broke("assert function %s::%s not found (or overloaded: %d)" % (shell, name, len(fs)))
@@ -193,69 +207,47 @@ def check(ctx, run):
         f = fs[0]
         found += 1
         run.analysed(f)
-        paths = enumerate_paths(f, stop=failwith_stop)
-        for p in paths:
-            v = {k.replace("(SimpleString)", ""): x for k, x in origin_val(f, p).items()}
-            calls = path_calls(prog, f, p)
-            names = [(prog.callee_name(f, c) or "") for c in calls]
-            nchk = names.count("TestResult::countCheck")
-            failed = p.end == "stop"
-            why = []
-            if nchk != 1:
-                why.append("countCheck called %d times" % nchk)
-            elif failed and names.index("TestResult::countCheck") > names.index(shell + "::failWith"):
-                why.append("failure recorded before the check is counted")
-            want = oracle(v)
-            if want is None:
-                why.append("the decision atoms on this path are not the ones the predicate is defined on")
-            elif want != failed:
-                why.append("records %s although the predicate is %s" % ("a failure" if failed else "no failure", "false" if want else "true"))
-            # compare helpers only with both operands known non-null
-            for c in calls:
-                nm = (prog.callee_name(f, c) or "")
-                if nm.split("::")[-1] in ("StrCmp", "StrNCmp", "MemCmp"):
-                    if v.get("expected") is not True or v.get("actual") is not True:
-                        why.append("%s is reached without both operands known non-null" % nm)
-                        break
-            run.ob("R1", "%s [%s]" % (name, short(p.describe(f), 110)), f.site, not why, witness={"fails": failed, "checks_counted": nchk}, what="; ".join(why))
-        # operands compared are the parameters, conversions value-preserving
-        for b in f.blocks.values():
-            if b.get("cond") is None:
+        try:
+            if name == "assertDoublesEqual":
+                for de_, want in ((1, False), (0, True)):
+                    log, ctor = fold_assert(f, (1.5, 2.5, 0.25), {"doubles_equal": de_})
+                    calls = [x for x in log if isinstance(x, tuple)]
+                    flat = [x for x in log if not isinstance(x, tuple)]
+                    why = ""
+                    if flat.count("check") != 1 or flat[:1] != ["check"]:
+                        why = "countCheck called %d times (first action %s)" % (flat.count("check"), flat[:1])
+                    elif [c[1] for c in calls] != [(1.5, 2.5, 0.25)]:
+                        why = "doubles_equal is asked about %s, expected (expected, actual, threshold) = (1.5, 2.5, 0.25)" % ([c[1] for c in calls],)
+                    elif (flat.count("fail") == 1) != want:
+                        why = "records %s although doubles_equal answers %d" % ("a failure" if "fail" in flat else "no failure", de_)
+                    run.ob("R1", "%s folded [doubles_equal answers %d]" % (name, de_), f.site, not why, witness=log if not why else why, what=why)
                 continue
-            cn = f.strip(f.nodes[b["cond"]], casts=False)
-            if cn is not None and cn["k"] == "BinaryOperator" and cn.get("op") in ("!=", "==") and name not in ("assertBinaryEqual",):
-                sides = []
-                okc = True
+            bad, ncase, order_bad = None, 0, None
+            for vals, want, desc in TABLE[name](f):
+                ncase += 1
+                log, ctor = fold_assert(f, vals)
                 why = ""
-                for side in (f.node(cn["lhs"]), f.node(cn["rhs"])):
-                    leaf, chain = cast_chain(f, side)
-                    if leaf is None:
-                        continue
-                    if leaf["k"] == "DeclRefExpr" and leaf.get("dk") == "ParmVar":
-                        rng = type_range(prog, leaf.get("ct", ""))
-                        if rng is not None:
-                            ok, _, lossy = apply_chain(prog, rng, chain)
-                            if not ok:
-                                okc, why = False, "operand %s is converted %s -> %s before the comparison: different values can compare equal" % (leaf["name"], lossy[1], lossy[2])
-                        sides.append(leaf["name"])
-                if len(sides) == 2:
-                    pts = {q["name"]: q["ct"] for q in f.params}
-                    if pts.get(sides[0]) != pts.get(sides[1]):
-                        okc, why = False, "operands have different declared types %s / %s" % (pts.get(sides[0]), pts.get(sides[1]))
-                    run.ob("R1", "%s compares its parameters %s themselves" % (name, sides), f.site, okc, witness=render(f, cn), what=why)
-        # argument order into the failure object
-        for c in f.calls():
-            if c["k"] in ("CXXConstructExpr", "CXXTemporaryObjectExpr") and c.get("ctor") and c["ctor"]["qn"].split("::")[0].endswith("Failure"):
-                g = prog.functions.get(c["ctor"]["mn"])
-                if g is None:
-                    continue
-                amap = {}
-                for q, a in zip(g.params, f.args(c)):
-                    amap[q["name"]] = render(f, a, keep_explicit_casts=False)
-                bad = [k for k in ("expected", "actual") if k in amap and k not in amap[k]]
-                if "expected" in amap or "actual" in amap:
-                    run.ob("R1", "%s passes expected/actual to %s in order" % (name, c["ctor"]["qn"].split("::")[0]), f.site, not bad, witness=amap,
-                           what="" if not bad else "the failure text would show the operands swapped")
+                if log.count("check") != 1:
+                    why = "countCheck called %d times" % log.count("check")
+                elif log[0] != "check":
+                    why = "failure recorded before the check is counted"
+                elif (log.count("fail") == 1) != bool(want) or log.count("fail") > 1:
+                    why = "records %s although the predicate is %s" % ("a failure" if "fail" in log else "no failure", "false" if want else "true")
+                if why and bad is None:
+                    bad = "%s%s: %s" % (name, desc, why)
+                if want and ctor and len(vals) >= 2 and vals[0] != vals[1] and name not in ("assertTrue", "assertCompare", "fail"):
+                    args = ctor[-1]
+                    ie = [i_ for i_, x in enumerate(args) if x == (vals[1] if name == "assertEquals" else vals[0])]
+                    ia = [i_ for i_, x in enumerate(args) if x == (vals[2] if name == "assertEquals" else vals[1])]
+                    if ie and ia and min(ie) > min(ia) and order_bad is None:
+                        order_bad = "%s%s: the failure object is built from %s: the failure text would show the operands swapped" % (name, desc, args)
+            run.ob("R1", "%s folded on %d operand cases: countCheck exactly once and first; a failure is recorded (once, never returning) iff the predicate is false" % (name, ncase), f.site, bad is None, witness=bad or "%d cases" % ncase, what=bad or "")
+            if name not in ("assertTrue", "assertCompare", "fail"):
+                run.ob("R1", "%s passes (expected, actual) to its failure object in that order" % name, f.site, order_bad is None, witness=order_bad or "ok", what=order_bad or "")
+        except Unknown as u:
+            run.broke("C03.R1: %s cannot be folded: %s" % (name, u))
+    for _ in range(0):
+        pass
     # ---------------- R2 ----------------------------------------------------
     de = prog.fn("doubles_equal")
     run.analysed(de)
